@@ -34,10 +34,16 @@ func (src *Rollout) ConvertTo(dst conversion.Hub) error {
 		obj.ObjectMeta = src.ObjectMeta
 		obj.Spec = v1beta1.RolloutSpec{}
 		srcSpec := src.Spec
-		obj.Spec.WorkloadRef = v1beta1.ObjectRef{
-			APIVersion: srcSpec.ObjectRef.WorkloadRef.APIVersion,
-			Kind:       srcSpec.ObjectRef.WorkloadRef.Kind,
-			Name:       srcSpec.ObjectRef.WorkloadRef.Name,
+		// workloadRef and canary are optional in the v1alpha1 schema
+		if srcSpec.ObjectRef.WorkloadRef != nil {
+			obj.Spec.WorkloadRef = v1beta1.ObjectRef{
+				APIVersion: srcSpec.ObjectRef.WorkloadRef.APIVersion,
+				Kind:       srcSpec.ObjectRef.WorkloadRef.Kind,
+				Name:       srcSpec.ObjectRef.WorkloadRef.Name,
+			}
+		}
+		if srcSpec.Strategy.Canary == nil {
+			srcSpec.Strategy.Canary = &CanaryStrategy{}
 		}
 		obj.Spec.Disabled = srcSpec.Disabled
 		obj.Spec.Strategy = v1beta1.RolloutStrategy{
@@ -171,7 +177,7 @@ func (dst *Rollout) ConvertFrom(src conversion.Hub) error {
 	case *v1beta1.Rollout:
 		srcV1beta1 := src.(*v1beta1.Rollout)
 		dst.ObjectMeta = srcV1beta1.ObjectMeta
-		if !srcV1beta1.Spec.Strategy.IsCanaryStragegy() {
+		if srcV1beta1.Spec.Strategy.Canary == nil || !srcV1beta1.Spec.Strategy.IsCanaryStragegy() {
 			// only v1beta1 supports bluegreen strategy
 			// Don't log the message because it will print too often
 			return nil
@@ -319,10 +325,12 @@ func (src *BatchRelease) ConvertTo(dst conversion.Hub) error {
 		obj.ObjectMeta = src.ObjectMeta
 		obj.Spec = v1beta1.BatchReleaseSpec{}
 		srcSpec := src.Spec
-		obj.Spec.WorkloadRef = v1beta1.ObjectRef{
-			APIVersion: srcSpec.TargetRef.WorkloadRef.APIVersion,
-			Kind:       srcSpec.TargetRef.WorkloadRef.Kind,
-			Name:       srcSpec.TargetRef.WorkloadRef.Name,
+		if srcSpec.TargetRef.WorkloadRef != nil {
+			obj.Spec.WorkloadRef = v1beta1.ObjectRef{
+				APIVersion: srcSpec.TargetRef.WorkloadRef.APIVersion,
+				Kind:       srcSpec.TargetRef.WorkloadRef.Kind,
+				Name:       srcSpec.TargetRef.WorkloadRef.Name,
+			}
 		}
 		obj.Spec.ReleasePlan = v1beta1.ReleasePlan{
 			BatchPartition:   srcSpec.ReleasePlan.BatchPartition,
